@@ -101,10 +101,10 @@ _MIN_QUICK = {
 }
 MIN_COUNTERS = {
     "quick": dict(_MIN_QUICK, opt_algorithms_swept=20, doe_algorithms_swept=29),
-    "thorough": dict({k: 12 * v for k, v in _MIN_QUICK.items() if k != "directed_cases"}, directed_cases=100,
+    "thorough": dict({k: 8 * v for k, v in _MIN_QUICK.items() if k != "directed_cases"}, directed_cases=100,
                      opt_algorithms_swept=20, doe_algorithms_swept=29),
 }
-SHARD_TIMEOUT = {"quick": 500, "thorough": 2400}
+SHARD_TIMEOUT = {"quick": 500, "thorough": 3000}
 
 KNOWN_DB_OFF = "C03:budget-unenforced:use_database=False"
 
@@ -142,9 +142,9 @@ class HarnessTimeout(BaseException):
 
 # =========================================================================== shards
 def shards(tier, seed):
-    n_random = {"quick": 70, "thorough": 2500}[tier]
+    n_random = {"quick": 70, "thorough": 4000}[tier]
     return [{"seed": subseed(seed, PID, i), "n_random": n_random, "n_shards": N_SHARDS,
-             "budget_s": {"quick": 300, "thorough": 1500}[tier]} for i in range(N_SHARDS)]
+             "budget_s": {"quick": 300, "thorough": 2000}[tier]} for i in range(N_SHARDS)]
 
 
 # =========================================================================== monitors attached to gemseo
@@ -583,11 +583,13 @@ def stop_of(terminations):
     return names
 
 
-def excess_signature(what, record, run, family, level, when):
+def excess_signature(what, record, case, family, level, when):
     """Mechanism signature of a budget excess with the database on."""
     if record.get("counter_decreased"):
         # the evaluation counter went backwards during the execution (someone reset it)
-        via = "kkt-criterion" if any(k.startswith("kkt_tol") for k in run["settings"]) and level == "main" else family
+        # (the KKT checker is a store listener that stays attached to the database: it also acts in later executions)
+        via = "kkt-criterion" if level == "main" and any(
+            k.startswith("kkt_tol") for r in case["runs"] for k in r["settings"]) else family
         return f"C03:budget-exceeded:evaluation-counter-reset-during-execution:{via}"
     return f"C03:{what}-exceed-budget:{family}:{level}:{when}"
 
@@ -688,7 +690,7 @@ def judge_run(case, index, run, problem, model, out, calls, terminations, keys_b
                             {"algo": record["algo"], "parallel": settings.get("n_processes", 1) > 1,
                              "new_entries": new_entries, "N": declared, "counter_before": record["counter_before"]})
             if new_entries > allowed:
-                rep.violation(excess_signature("entries", record, run, family, level, when), "1: new database entries <= N",
+                rep.violation(excess_signature("entries", record, case, family, level, when), "1: new database entries <= N",
                               witness, observed={"new_entries": new_entries, "algo": record["algo"]},
                               expected={"allowed": allowed, "N": declared, "reset": record["reset"],
                                         "counter_before": record["counter_before"]})
@@ -714,7 +716,7 @@ def judge_run(case, index, run, problem, model, out, calls, terminations, keys_b
                                         "algo": record["algo"], "new_entries": new_entries},
                               expected={"allowed": allowed})
             else:
-                rep.violation(excess_signature("points", record, run, family, level, when),
+                rep.violation(excess_signature("points", record, case, family, level, when),
                               "2: distinct evaluated points <= N", witness,
                               observed={"distinct_points": len(distinct), "new_entries": new_entries, "algo": record["algo"]},
                               expected={"allowed": allowed})
